@@ -31,6 +31,11 @@ type Endpoint struct {
 	NoWindow bool          // the API has no time parameters at all (Tempo v1 tags / tag values)
 	Instant  bool
 	Thorough bool // only in the thorough tier
+	// sparse range queries (Window.tla: the step filter): a range-vector function over Range evaluated every Step with
+	// Step > Range: the evaluation at t needs the samples of [t - Offset - Range, t - Offset] only, the planner may skip
+	// the gaps between these windows (and nothing else)
+	Step  time.Duration
+	Range time.Duration
 	Call     func(x *X, w Win) (int, string)
 }
 
@@ -49,6 +54,25 @@ func msDur(sec int64) string {
 		return fmt.Sprintf("%dms", subMs)
 	}
 	return fmt.Sprintf("%ds%dms", sec, subMs)
+}
+
+type sparseQ struct {
+	step int
+	rng  time.Duration
+	off  time.Duration
+}
+
+// promDur spells a duration the way PromQL wants it (1m0s is not accepted)
+func promDur(d time.Duration) string {
+	ms := d.Milliseconds()
+	r := ""
+	if ms >= 1000 {
+		r = fmt.Sprintf("%ds", ms/1000)
+	}
+	if ms%1000 != 0 || r == "" {
+		r += fmt.Sprintf("%dms", ms%1000)
+	}
+	return r
 }
 
 func lokiRange(q string, step string) func(x *X, w Win) (int, string) {
@@ -191,6 +215,24 @@ func endpoints() []Endpoint {
 		pqs = append(pqs, pq{f + "_1m", q, time.Minute, i >= 4})
 	}
 	pqs = append(pqs, pq{"rate_10s_sparse", `rate(m1{app="a1"}[10s])`, 10 * time.Second, false})
+	// every range-vector hint function evaluated with a step larger than its range (the step filter of processHints):
+	// ranges of whole seconds and with a millisecond part, with and without offset, steps that are / are not multiples
+	// of 15 s and of the range
+	sparse := map[string]sparseQ{}
+	for i, f := range []string{"sum_over_time", "increase", "last_over_time", "rate", "count_over_time", "delta", "irate", "idelta", "deriv", "resets", "min_over_time", "max_over_time",
+		"avg_over_time", "stddev_over_time", "stdvar_over_time", "present_over_time", "absent_over_time"} {
+		rng := []time.Duration{20 * time.Second, time.Minute, 7 * time.Second, 15*time.Second + time.Duration(subMs)*time.Millisecond}[i%4]
+		off := []time.Duration{0, 7 * time.Second, 0, time.Duration(subMs) * time.Millisecond, time.Minute}[i%5]
+		step := []int{45, 300, 30, 40}[i%4]
+		q := fmt.Sprintf(`%s(m1{app="a1"}[%s]`, f, promDur(rng))
+		if off > 0 {
+			q += " offset " + promDur(off)
+		}
+		name := f + "_sparse"
+		sparse[name] = sparseQ{step, rng, off}
+		pqs = append(pqs, pq{name, q + ")", rng, i >= 4})
+	}
+	sparse["rate_10s_sparse"] = sparseQ{30, 10 * time.Second, 0}
 	for i, f := range []string{"sum", "min", "max", "avg", "group", "count", "topk"} {
 		q := f + ` by (pos) (m1{app="a1"})`
 		if f == "topk" {
@@ -200,10 +242,16 @@ func endpoints() []Endpoint {
 	}
 	for _, p := range pqs {
 		for _, step := range []int{15, 7, 30} {
-			if step == 30 && p.name != "rate_10s_sparse" {
+			if sq, ok := sparse[p.name]; ok {
+				if step != 15 {
+					continue
+				}
+				eps = append(eps, Endpoint{Name: fmt.Sprintf("prom.query_range.%s.step%d", p.name, sq.step), API: "prom", Signal: 2, Metric: true, Unit: time.Second,
+					Lookback: p.lookback, Offset: sq.off, UpIncl: true, Family: "lm", Call: promRange(p.q, sq.step), Thorough: p.thorough,
+					Step: time.Duration(sq.step) * time.Second, Range: sq.rng})
 				continue
 			}
-			if step != 30 && p.name == "rate_10s_sparse" {
+			if step == 30 {
 				continue
 			}
 			// Unit: the controller aligns start / end to whole 15 s and steps are whole seconds: every evaluation instant
